@@ -1,7 +1,7 @@
 (* Region lists as sets of page ids: well-formedness (sorted, disjoint, positive counts) and the
    set semantics of the free-list operations. *)
 From VF Require Import Region Freelist.
-From Coq Require Import Lia.
+From Coq Require Import Lia ZifyBool.
 
 Definition inr (id : Z) (r : region) : Prop := rid r <= id < rend r.
 Definition inl (id : Z) (l : regions) : Prop := exists r, In r l /\ inr id r.
@@ -10,7 +10,7 @@ Definition inl (id : Z) (l : regions) : Prop := exists r, In r l /\ inr id r.
    its predecessor (adjacent regions are allowed: lists need not be merged) *)
 Inductive wfl : Z -> regions -> Prop :=
 | wfl_nil lo : wfl lo []
-| wfl_cons lo r l : lo <= rid r -> 0 < rcount r -> wfl (rend r) l -> wfl lo (r :: l).
+| wfl_cons lo r l : lo <= rid r -> 0 < rcount r < 2^32 -> wfl (rend r) l -> wfl lo (r :: l).
 
 Lemma wfl_weaken lo lo' l : lo' <= lo -> wfl lo l -> wfl lo' l.
 Proof. intros H W. destruct W; constructor; auto; lia. Qed.
@@ -116,4 +116,543 @@ Proof.
   intros W HN E id Ha Hr.
   destruct (take_front_spec l lo N a rest W HN E) as (_ & (hi & Wr & Hhi & _) & _).
   pose proof (Hhi _ Ha). pose proof (wfl_lower _ _ _ Wr Hr). lia.
+Qed.
+
+(* ---------- take_back (allocFromEnd) ---------- *)
+Lemma take_back_spec : forall l lo N a k,
+  wfl lo l -> 0 < N <= count_pages l -> take_back l N = (a, k) ->
+  wfl lo k /\ (exists mid, wfl mid a /\ (forall id, inl id k -> id < mid) /\ lo <= mid) /\
+  count_pages a = N /\ count_pages k = count_pages l - N /\
+  (forall id, inl id l <-> inl id a \/ inl id k).
+Proof.
+  induction l as [|r l IH]; intros lo N a k W HN E.
+  - rewrite count_pages_nil in HN. lia.
+  - inversion W as [|? ? ? Hlo Hc Wl]; subst. cbn [take_back] in E.
+    rewrite count_pages_cons in HN.
+    destruct (N <=? count_pages l) eqn:EN.
+    + destruct (take_back l N) as [a' k'] eqn:E'. injection E as <- <-.
+      assert (HN': 0 < N <= count_pages l) by lia.
+      destruct (IH (rend r) N a' k' Wl HN' E') as (Wk & (mid & Wa & Hmid & Hle) & Ca & Ck & Hset).
+      split; [constructor; auto|].
+      split.
+      { exists mid. split; [exact Wa|]. split.
+        - intros id H. apply inl_cons in H as [H|H]; [unfold inr in H; lia | auto].
+        - unfold rend in Hle. lia. }
+      split; [exact Ca|]. split; [rewrite !count_pages_cons; lia|].
+      intros id. rewrite !inl_cons, Hset. tauto.
+    + injection E as <- <-.
+      set (m := N - count_pages l) in *.
+      assert (Hm: 0 < m <= rcount r) by (unfold m; lia).
+      split.
+      { destruct (rcount r - m =? 0) eqn:Ez; [constructor|]. constructor; cbn; try lia. constructor. }
+      split.
+      { exists (rid r + (rcount r - m)). split; [|split].
+        - constructor; cbn; try lia. unfold rend in *. cbn.
+          replace (rid r + (rcount r - m) + m) with (rid r + rcount r) by lia. exact Wl.
+        - intros id H. destruct (rcount r - m =? 0) eqn:Ez; [destruct (inl_nil _ H)|].
+          apply inl_cons in H as [H|H]; [unfold inr, rend in H; cbn in H; lia | destruct (inl_nil _ H)].
+        - lia. }
+      split; [rewrite count_pages_cons; cbn; unfold m; lia|].
+      split.
+      { rewrite (count_pages_cons r l).
+        destruct (rcount r - m =? 0) eqn:Ez; [rewrite count_pages_nil; unfold m in *; lia|].
+        rewrite count_pages_cons, count_pages_nil. cbn. unfold m. lia. }
+      intros id. rewrite !inl_cons. unfold inr, rend. cbn.
+      destruct (rcount r - m =? 0) eqn:Ez.
+      * assert (Hrm: rcount r = m) by lia. split.
+        -- intros [H|H]; [left; left; lia | left; right; exact H].
+        -- intros [[H|H]|H]; [left; lia | right; exact H | destruct (inl_nil _ H)].
+      * rewrite inl_cons. unfold inr, rend. cbn. split.
+        -- intros [H|H]; [|left; right; exact H].
+           destruct (Z_lt_ge_dec id (rid r + (rcount r - m))); [right; left; lia | left; left; lia].
+        -- intros [[H|H]|[H|H]]; [left; lia | right; exact H | left; lia | destruct (inl_nil _ H)].
+Qed.
+
+Lemma take_back_disjoint l lo N a k :
+  wfl lo l -> 0 < N <= count_pages l -> take_back l N = (a, k) ->
+  forall id, inl id a -> ~ inl id k.
+Proof.
+  intros W HN E id Ha Hk.
+  destruct (take_back_spec l lo N a k W HN E) as (_ & (mid & Wa & Hmid & _) & _).
+  pose proof (Hmid _ Hk). pose proof (wfl_lower _ _ _ Wa Ha). lia.
+Qed.
+
+(* ---------- freelist.AllocRegionsWith ---------- *)
+Definition wff (lo : Z) (f : freelist) : Prop := wfl lo (fregions f) /\ avail f = count_pages (fregions f).
+
+Theorem fl_alloc_regions_spec fromEnd lo f n a f' :
+  wff lo f -> 0 <= n -> fl_alloc_regions fromEnd f n = (a, f') ->
+  wff lo f' /\ wfl lo a /\
+  (n <= avail f -> count_pages a = n /\ avail f' = avail f - n) /\
+  (avail f < n -> a = [] /\ f' = f) /\
+  (forall id, inl id (fregions f) <-> inl id a \/ inl id (fregions f')) /\
+  (forall id, inl id a -> ~ inl id (fregions f')).
+Proof.
+  intros [W Hav] Hn. unfold fl_alloc_regions.
+  destruct (n =? 0) eqn:E0; cbn [orb].
+  - intros [= <- <-]. assert (n = 0) by lia. subst n.
+    split; [split; assumption|]. split; [constructor|].
+    split; [intros _; rewrite count_pages_nil; lia|]. split; [intros _; split; reflexivity|].
+    split; [intros id; split; [right; assumption | intros [H|H]; [destruct (inl_nil _ H)|exact H]] | intros id H; destruct (inl_nil _ H)].
+  - destruct (avail f <? n) eqn:Ea.
+    + intros [= <- <-].
+      split; [split; assumption|]. split; [constructor|].
+      split; [intros; lia|]. split; [auto|].
+      split; [intros id; split; [right; assumption | intros [H|H]; [destruct (inl_nil _ H)|exact H]] | intros id H; destruct (inl_nil _ H)].
+    + assert (HN: 0 < n <= count_pages (fregions f)) by lia.
+      destruct fromEnd.
+      * destruct (take_back (fregions f) n) as [a0 k] eqn:E. intros [= <- <-]. cbn [avail fregions].
+        destruct (take_back_spec _ lo n a0 k W HN E) as (Wk & (mid & Wa & Hmid & Hle) & Ca & Ck & Hset).
+        split; [split; cbn [avail fregions]; [exact Wk | lia]|].
+        split; [apply wfl_weaken with mid; assumption|].
+        split; [intros _; split; [exact Ca | lia]|]. split; [intros; lia|].
+        split; [exact Hset|]. apply (take_back_disjoint _ lo n a0 k W HN E).
+      * destruct (take_front (fregions f) n) as [a0 rest] eqn:E. intros [= <- <-]. cbn [avail fregions].
+        destruct (take_front_spec _ lo n a0 rest W HN E) as (Wa & (hi & Wr & Hhi & Hle) & Ca & Cr & Hset).
+        split; [split; cbn [avail fregions]; [apply wfl_weaken with hi; assumption | lia]|].
+        split; [exact Wa|].
+        split; [intros _; split; [exact Ca | lia]|]. split; [intros; lia|].
+        split; [exact Hset|]. apply (take_front_disjoint _ lo n a0 rest W HN E).
+Qed.
+
+(* ---------- mergeable / merge ---------- *)
+Lemma mergeable_spec a b : rid a < rid b -> 0 < rcount a < 2^32 -> 0 < rcount b < 2^32 ->
+  mergeable a b = true -> rend a = rid b /\ rcount a + rcount b < 2^32.
+Proof.
+  intros Hlt Ha Hb. unfold mergeable.
+  replace (rid a <? rid b) with true by lia.
+  intros H. apply andb_prop in H as [H1 H2]. split; [lia|].
+  destruct (Z_lt_ge_dec (rcount a + rcount b) (2^32)) as [|Hge]; [assumption|].
+  exfalso. assert ((rcount a + rcount b) mod 2^32 = rcount a + rcount b - 2^32).
+  { symmetry. apply Z.mod_unique with 1; lia. }
+  lia.
+Qed.
+
+Lemma mergeable_sym a b : rid a <> rid b -> mergeable a b = mergeable b a.
+Proof.
+  intros Hne. unfold mergeable.
+  destruct (rid a <? rid b) eqn:E1, (rid b <? rid a) eqn:E2; try reflexivity; lia.
+Qed.
+
+Lemma merge_spec a b : rend a = rid b -> 0 <= rcount a -> 0 <= rcount b -> rcount a + rcount b < 2^32 ->
+  rid (merge a b) = rid a /\ rcount (merge a b) = rcount a + rcount b /\ rend (merge a b) = rend b.
+Proof.
+  intros H Ha Hb Hs. unfold merge, rend in *. cbn. rewrite Z.mod_small by lia. lia.
+Qed.
+
+(* ---------- freelist.AddRegion ---------- *)
+Lemma add_region_spec : forall l lo reg,
+  wfl lo l -> lo <= rid reg -> 0 < rcount reg < 2^32 ->
+  (forall id, inr id reg -> ~ inl id l) ->
+  wfl lo (add_region_l l reg) /\
+  (forall id, inl id (add_region_l l reg) <-> inr id reg \/ inl id l) /\
+  count_pages (add_region_l l reg) = count_pages l + rcount reg.
+Proof.
+  induction l as [|r l IH]; intros lo reg W Hlo Hc Hdis.
+  - cbn [add_region_l]. split; [constructor; auto; constructor|]. split; [intros id; rewrite inl_cons; tauto|].
+    rewrite count_pages_cons, !count_pages_nil. lia.
+  - inversion W as [|? ? ? Hlor Hcr Wl]; subst.
+    (* reg and r are disjoint *)
+    assert (Hnr: rend reg <= rid r \/ rend r <= rid reg).
+    { destruct (Z_le_gt_dec (rend reg) (rid r)); [left; assumption|].
+      destruct (Z_le_gt_dec (rend r) (rid reg)); [right; assumption|]. exfalso.
+      apply (Hdis (Z.max (rid reg) (rid r))); [unfold inr, rend in *; lia|].
+      apply inl_cons. left. unfold inr, rend in *. lia. }
+    assert (Hdisl: forall id, inr id reg -> ~ inl id l).
+    { intros id H Hl. apply (Hdis id H). apply inl_cons. right. exact Hl. }
+    cbn [add_region_l].
+    destruct (rid reg <? rend r) eqn:E1.
+    + (* reg goes before r *)
+      assert (Hbefore: rend reg <= rid r) by (unfold rend in *; lia).
+      destruct (mergeable reg r) eqn:Em.
+      * apply mergeable_spec in Em; try lia; [|unfold rend in *; lia].
+        destruct Em as [Hadj Hsum].
+        destruct (merge_spec reg r Hadj ltac:(lia) ltac:(lia) Hsum) as (Mi & Mc & Me).
+        split; [constructor; try lia; rewrite Me; exact Wl|].
+        split.
+        -- intros id. rewrite !inl_cons. unfold inr. rewrite Mi, Me. unfold rend in *. split; [intros [H|H]|intros [H|[H|H]]]; try tauto; try lia.
+           all: try (destruct (Z_lt_ge_dec id (rid r)); [left; lia | right; left; lia]).
+        -- rewrite !count_pages_cons. lia.
+      * split; [constructor; auto; constructor; auto; lia|].
+        split; [intros id; rewrite !inl_cons; tauto|].
+        rewrite !count_pages_cons. lia.
+    + (* reg starts at or after the end of r *)
+      assert (Hafter: rend r <= rid reg) by lia.
+      destruct l as [|r2 tl].
+      * destruct (mergeable r reg) eqn:Em.
+        -- apply mergeable_spec in Em; try lia; [|unfold rend in *; lia].
+           destruct Em as [Hadj Hsum].
+           destruct (merge_spec r reg Hadj ltac:(lia) ltac:(lia) Hsum) as (Mi & Mc & Me).
+           split; [constructor; try lia; constructor|].
+           split.
+           ++ intros id. rewrite !inl_cons. unfold inr. rewrite Mi, Me. unfold rend in *.
+              split; [intros [H|H]|intros [H|[H|H]]]; try tauto; try lia; try (destruct (inl_nil _ H)).
+              all: try (destruct (Z_lt_ge_dec id (rid reg)); [right; left; lia | left; lia]).
+           ++ rewrite !count_pages_cons, !count_pages_nil. lia.
+        -- split; [constructor; auto; constructor; auto; constructor|].
+           split; [intros id; rewrite !inl_cons; tauto|].
+           rewrite !count_pages_cons, !count_pages_nil. lia.
+      * inversion Wl as [|? ? ? Hlo2 Hc2 Wtl]; subst.
+        destruct (rid reg <? rend r2) eqn:E2.
+        -- (* between r and r2 *)
+           assert (Hb2: rend reg <= rid r2).
+           { destruct (Z_le_gt_dec (rend reg) (rid r2)); [assumption|]. exfalso.
+             apply (Hdisl (Z.max (rid reg) (rid r2))); [unfold inr, rend in *; lia|].
+             apply inl_cons. left. unfold inr, rend in *. lia. }
+           destruct (mergeable r reg) eqn:Emb.
+           ++ apply mergeable_spec in Emb; try lia; [|unfold rend in *; lia].
+              destruct Emb as [Hadj Hsum].
+              destruct (merge_spec r reg Hadj ltac:(lia) ltac:(lia) Hsum) as (Mi & Mc & Me).
+              destruct (mergeable (merge r reg) r2) eqn:Ema.
+              ** apply mergeable_spec in Ema; try lia; [|unfold rend in *; lia].
+                 destruct Ema as [Hadj2 Hsum2].
+                 destruct (merge_spec (merge r reg) r2 Hadj2 ltac:(lia) ltac:(lia) Hsum2) as (Ni & Nc & Ne).
+                 split; [constructor; try lia; rewrite Ne; exact Wtl|].
+                 split.
+                 --- intros id. rewrite !inl_cons. unfold inr. rewrite Ni, Ne, Mi. unfold rend in *.
+                     split; [intros [H|H]|intros [H|[H|[H|H]]]]; try tauto; try lia.
+                     all: try (destruct (Z_lt_ge_dec id (rid reg)); [right; left; lia|]).
+                     all: try (destruct (Z_lt_ge_dec id (rid r2)); [left; lia | right; right; left; lia]).
+                 --- rewrite !count_pages_cons. lia.
+              ** split; [constructor; try lia; rewrite Me; constructor; auto|].
+                 split.
+                 --- intros id. rewrite !inl_cons. unfold inr. rewrite Mi, Me. unfold rend in *.
+                     split; [intros [H|[H|H]]|intros [H|[H|[H|H]]]]; try tauto; try lia.
+                     all: try (destruct (Z_lt_ge_dec id (rid reg)); [right; left; lia | left; lia]).
+                 --- rewrite !count_pages_cons. lia.
+           ++ destruct (mergeable reg r2) eqn:Ema.
+              ** apply mergeable_spec in Ema; try lia; [|unfold rend in *; lia].
+                 destruct Ema as [Hadj2 Hsum2].
+                 destruct (merge_spec reg r2 Hadj2 ltac:(lia) ltac:(lia) Hsum2) as (Ni & Nc & Ne).
+                 split; [constructor; auto; constructor; try lia; rewrite Ne; exact Wtl|].
+                 split.
+                 --- intros id. rewrite !inl_cons. unfold inr. rewrite Ni, Ne. unfold rend in *.
+                     split; [intros [H|[H|H]]|intros [H|[H|[H|H]]]]; try tauto; try lia.
+                     all: try (destruct (Z_lt_ge_dec id (rid r2)); [left; lia | right; right; left; lia]).
+                 --- rewrite !count_pages_cons. lia.
+              ** split; [constructor; auto; constructor; auto; constructor; auto; lia|].
+                 split; [intros id; rewrite !inl_cons; tauto|].
+                 rewrite !count_pages_cons. lia.
+        -- (* further right: recurse on the tail *)
+           destruct (IH (rend r) reg Wl Hafter Hc Hdisl) as (W' & Hset & Hcnt).
+           split; [constructor; auto|].
+           split; [intros id; rewrite !inl_cons, Hset, !inl_cons; tauto|].
+           rewrite !count_pages_cons in *. lia.
+Qed.
+
+(* ---------- freelist.RemoveRegion ---------- *)
+Lemma remove_range_spec : forall l lo rs re l' t,
+  wfl lo l -> remove_range l rs re = (l', t) ->
+  wfl lo l' /\
+  (forall id, inl id l' <-> inl id l /\ ~ (rs <= id < re)) /\
+  count_pages l' = count_pages l - t /\ 0 <= t.
+Proof.
+  induction l as [|cur tl IH]; intros lo rs re l' t W E.
+  - cbn in E. injection E as <- <-. split; [constructor|]. split; [|rewrite count_pages_nil; lia].
+    intros id. split; [intros H; destruct (inl_nil _ H) | intros [H _]; exact H].
+  - inversion W as [|? ? ? Hlo Hc Wtl]; subst. cbn [remove_range] in E.
+    destruct (re <=? rs) eqn:E0.
+    { injection E as <- <-. split; [exact W|]. split; [intros id; split; [intros H; split; [exact H|lia] | tauto] | lia]. }
+    set (rs1 := Z.max rs (rid cur)) in *.
+    destruct (re <=? rs1) eqn:E1.
+    { injection E as <- <-. split; [exact W|]. split; [|lia].
+      intros id. split; [|tauto]. intros H. split; [exact H|].
+      apply inl_cons in H as [H|H]; [unfold inr in H | pose proof (wfl_lower _ _ _ Wtl H); unfold rend in *]; unfold rs1 in *; lia. }
+    destruct (rs1 =? rid cur) eqn:E2.
+    + (* removal starts at the beginning of cur *)
+      set (c := Z.min (re - rs1) (rcount cur)) in *.
+      destruct (remove_range tl (rs1 + c) re) as [tl' t'] eqn:Er.
+      assert (Wtl': wfl (rend cur) tl) by exact Wtl.
+      destruct (IH (rend cur) (rs1 + c) re tl' t' Wtl Er) as (W' & Hset & Hcnt & Ht).
+      assert (Hc1: 0 < c <= rcount cur) by (unfold c, rs1 in *; lia).
+      destruct (rcount cur - c =? 0) eqn:Ez; cbn [rcount] in E; rewrite Ez in E; injection E as <- <-.
+      * split; [apply wfl_weaken with (rend cur); [unfold rend; lia | exact W']|].
+        split.
+        -- intros id. rewrite Hset, inl_cons. unfold inr, rend in *. unfold rs1 in *.
+           split.
+           ++ intros [H Hn]. split; [right; exact H|]. pose proof (wfl_lower _ _ _ Wtl H). unfold rend in *. lia.
+           ++ intros [[H|H] Hn]; [exfalso; lia|]. split; [exact H|]. pose proof (wfl_lower _ _ _ Wtl H). unfold rend in *. lia.
+        -- rewrite count_pages_cons. lia.
+      * split.
+        { constructor; cbn; try lia. unfold rend in *. cbn. replace (rid cur + c + (rcount cur - c)) with (rid cur + rcount cur) by lia. exact W'. }
+        split.
+        -- intros id. rewrite !inl_cons, Hset. unfold inr, rend in *. cbn. unfold rs1, c in *.
+           split.
+           ++ intros [H|[H Hn]]; [split; [left; lia | lia]|]. split; [right; exact H|].
+              pose proof (wfl_lower _ _ _ Wtl H). unfold rend in *. lia.
+           ++ intros [[H|H] Hn]; [left; lia|]. right. split; [exact H|].
+              pose proof (wfl_lower _ _ _ Wtl H). unfold rend in *. lia.
+        -- rewrite !count_pages_cons. cbn. lia.
+    + (* removal starts inside or after cur *)
+      set (keep := rs1 - rid cur) in *.
+      assert (Hkeep: 0 < keep) by (unfold keep, rs1 in *; lia).
+      destruct (rcount cur <=? keep) eqn:E3.
+      * destruct (remove_range tl rs1 re) as [tl' t'] eqn:Er. injection E as <- <-.
+        destruct (IH (rend cur) rs1 re tl' t' Wtl Er) as (W' & Hset & Hcnt & Ht).
+        split; [constructor; auto|].
+        split.
+        -- intros id. rewrite !inl_cons, Hset. unfold inr, rend in *. unfold keep, rs1 in *.
+           split.
+           ++ intros [H|[H Hn]]; [split; [left; exact H | lia] | split; [right; exact H|]].
+              pose proof (wfl_lower _ _ _ Wtl H). unfold rend in *. lia.
+           ++ intros [[H|H] Hn]; [left; exact H | right; split; [exact H|]].
+              pose proof (wfl_lower _ _ _ Wtl H). unfold rend in *. lia.
+        -- rewrite !count_pages_cons. lia.
+      * set (lc := rcount cur - keep) in *.
+        set (c := Z.min (re - rs1) lc) in *.
+        assert (Hc1: 0 < c <= lc) by (unfold c, lc, keep, rs1 in *; lia).
+        cbn [rcount] in E.
+        destruct (0 <? lc - c) eqn:E4.
+        -- injection E as <- <-.
+           split.
+           { constructor; cbn; try lia. constructor; cbn; unfold rend; cbn; try (unfold lc, keep in *; lia).
+             unfold rend in *. cbn. replace (rs1 + c + (lc - c)) with (rid cur + rcount cur) by (unfold lc, keep; lia). exact Wtl. }
+           split.
+           ++ intros id. rewrite !inl_cons. unfold inr, rend in *. cbn. unfold c, lc, keep, rs1 in *.
+              split.
+              ** intros [H|[H|H]]; [split; [left; lia | lia] | split; [left; lia | lia] | split; [right; exact H|]].
+                 pose proof (wfl_lower _ _ _ Wtl H). unfold rend in *. lia.
+              ** intros [[H|H] Hn]; [|right; right; exact H].
+                 destruct (Z_lt_ge_dec id (Z.max rs (rid cur))); [left; lia | right; left; lia].
+           ++ rewrite !count_pages_cons. cbn. unfold lc, keep. lia.
+        -- destruct (remove_range tl (rs1 + c) re) as [tl' t'] eqn:Er. injection E as <- <-.
+           destruct (IH (rend cur) (rs1 + c) re tl' t' Wtl Er) as (W' & Hset & Hcnt & Ht).
+           assert (Hlc: c = lc) by lia.
+           split.
+           { constructor; cbn; try lia. apply wfl_weaken with (rend cur); [unfold rend; cbn; unfold keep; lia | exact W']. }
+           split.
+           ++ intros id. rewrite !inl_cons, Hset. unfold inr, rend in *. cbn. unfold c, lc, keep, rs1 in *.
+              split.
+              ** intros [H|[H Hn]]; [split; [left; lia | lia] | split; [right; exact H|]].
+                 pose proof (wfl_lower _ _ _ Wtl H). unfold rend in *. lia.
+              ** intros [[H|H] Hn]; [left; lia | right; split; [exact H|]].
+                 pose proof (wfl_lower _ _ _ Wtl H). unfold rend in *. lia.
+           ++ rewrite !count_pages_cons. cbn. unfold lc, keep in *. lia.
+Qed.
+
+(* ---------- MergeAdjacent / mergeRegionLists ---------- *)
+Lemma merge_adjacent_from_spec : forall l lo cur,
+  wfl lo (cur :: l) ->
+  wfl lo (merge_adjacent_from cur l) /\
+  (forall id, inl id (merge_adjacent_from cur l) <-> inl id (cur :: l)) /\
+  count_pages (merge_adjacent_from cur l) = count_pages (cur :: l).
+Proof.
+  induction l as [|r l IH]; intros lo cur W.
+  - cbn. split; [exact W|]. split; [tauto|reflexivity].
+  - inversion W as [|? ? ? Hlo Hc Wl]; subst. inversion Wl as [|? ? ? Hlo2 Hc2 Wl2]; subst.
+    cbn [merge_adjacent_from].
+    destruct (mergeable cur r) eqn:Em.
+    + apply mergeable_spec in Em; try lia; [|unfold rend in *; lia].
+      destruct Em as [Hadj Hsum].
+      destruct (merge_spec cur r Hadj ltac:(lia) ltac:(lia) Hsum) as (Mi & Mc & Me).
+      assert (W': wfl lo (merge cur r :: l)) by (constructor; try lia; rewrite Me; exact Wl2).
+      destruct (IH lo (merge cur r) W') as (W2 & Hset & Hcnt).
+      split; [exact W2|]. split.
+      * intros id. rewrite Hset, !inl_cons. unfold inr. rewrite Mi, Me. unfold rend in *.
+        split; [intros [H|H]|intros [H|[H|H]]]; try tauto; try lia.
+        all: try (destruct (Z_lt_ge_dec id (rid r)); [left; lia | right; left; lia]).
+      * rewrite Hcnt, !count_pages_cons. lia.
+    + destruct (IH (rend cur) r Wl) as (W2 & Hset & Hcnt).
+      split; [constructor; auto|]. split.
+      * intros id. rewrite inl_cons, Hset, !inl_cons. tauto.
+      * rewrite !count_pages_cons in *. lia.
+Qed.
+
+Lemma merge_adjacent_spec l lo : wfl lo l ->
+  wfl lo (merge_adjacent l) /\ (forall id, inl id (merge_adjacent l) <-> inl id l) /\
+  count_pages (merge_adjacent l) = count_pages l.
+Proof.
+  destruct l as [|r l]; intros W; [cbn; split; [exact W|split; [tauto|reflexivity]]|].
+  apply merge_adjacent_from_spec. exact W.
+Qed.
+
+(* merge of two well-formed, mutually disjoint lists *)
+Definition disjoint_l (a b : regions) : Prop := forall id, inl id a -> inl id b -> False.
+
+Lemma merge_sorted_nil_r a : merge_sorted a [] = a.
+Proof. destruct a; reflexivity. Qed.
+
+Lemma merge_sorted_cons x a y b :
+  merge_sorted (x :: a) (y :: b) = if rid x <? rid y then x :: merge_sorted a (y :: b) else y :: merge_sorted (x :: a) b.
+Proof. reflexivity. Qed.
+
+Lemma regions_disjoint_order x y : 0 < rcount x -> 0 < rcount y ->
+  (forall id, inr id x -> inr id y -> False) -> rend x <= rid y \/ rend y <= rid x.
+Proof.
+  intros Hx Hy H.
+  destruct (Z_le_gt_dec (rend x) (rid y)); [left; assumption|].
+  destruct (Z_le_gt_dec (rend y) (rid x)); [right; assumption|]. exfalso.
+  apply (H (Z.max (rid x) (rid y))); unfold inr, rend in *; lia.
+Qed.
+
+Lemma merge_sorted_spec : forall a b lo,
+  wfl lo a -> wfl lo b -> disjoint_l a b ->
+  wfl lo (merge_sorted a b) /\
+  (forall id, inl id (merge_sorted a b) <-> inl id a \/ inl id b) /\
+  count_pages (merge_sorted a b) = count_pages a + count_pages b.
+Proof.
+  induction a as [|x a IHa].
+  - intros b lo _ Wb _. assert (E: merge_sorted [] b = b) by (destruct b; reflexivity). rewrite E.
+    split; [exact Wb|]. split; [intros id; split; [right; assumption | intros [H|H]; [destruct (inl_nil _ H)|exact H]] | rewrite count_pages_nil; lia].
+  - induction b as [|y b IHb]; intros lo Wa Wb Hd.
+    + rewrite merge_sorted_nil_r. split; [exact Wa|]. split; [|rewrite count_pages_nil; lia].
+      intros id. split; [left; assumption | intros [H|H]; [exact H | destruct (inl_nil _ H)]].
+    + rewrite merge_sorted_cons.
+      inversion Wa as [|? ? ? Hlox Hcx Wa']; subst. inversion Wb as [|? ? ? Hloy Hcy Wb']; subst.
+      assert (Hxy: rend x <= rid y \/ rend y <= rid x).
+      { apply regions_disjoint_order; try lia. intros id Hx Hy. apply (Hd id); apply inl_cons; left; assumption. }
+      destruct (rid x <? rid y) eqn:E.
+      * assert (Hb: rend x <= rid y) by (unfold rend in *; lia).
+        assert (Hd': disjoint_l a (y :: b)).
+        { intros id H1 H2. apply (Hd id); [apply inl_cons; right; exact H1 | exact H2]. }
+        assert (Wb2: wfl (rend x) (y :: b)) by (constructor; auto).
+        destruct (IHa (y :: b) (rend x) Wa' Wb2 Hd') as (W & Hset & Hcnt).
+        split; [constructor; auto|]. split.
+        -- intros id. rewrite inl_cons, Hset, !inl_cons. tauto.
+        -- rewrite !count_pages_cons in *. lia.
+      * assert (Hb: rend y <= rid x).
+        { destruct Hxy as [H|H]; [|exact H]. unfold rend in *. lia. }
+        assert (Hd': disjoint_l (x :: a) b).
+        { intros id H1 H2. apply (Hd id); [exact H1 | apply inl_cons; right; exact H2]. }
+        assert (Wa2: wfl (rend y) (x :: a)) by (constructor; auto).
+        destruct (IHb (rend y) Wa2 Wb' Hd') as (W & Hset & Hcnt).
+        split; [constructor; auto|]. split.
+        -- intros id. rewrite inl_cons, Hset, !inl_cons. tauto.
+        -- rewrite !count_pages_cons in *. lia.
+Qed.
+
+Theorem merge_region_lists_spec a b lo :
+  wfl lo a -> wfl lo b -> disjoint_l a b ->
+  wfl lo (merge_region_lists a b) /\
+  (forall id, inl id (merge_region_lists a b) <-> inl id a \/ inl id b) /\
+  count_pages (merge_region_lists a b) = count_pages a + count_pages b.
+Proof.
+  intros Wa Wb Hd. unfold merge_region_lists.
+  destruct (merge_sorted_spec a b lo Wa Wb Hd) as (W & Hset & Hcnt).
+  destruct (merge_adjacent_spec _ lo W) as (W2 & Hset2 & Hcnt2).
+  split; [exact W2|]. split; [intros id; rewrite Hset2; apply Hset | lia].
+Qed.
+
+(* ---------- page sets as region lists (pageSet.Regions) ---------- *)
+Inductive sorted_from : Z -> list Z -> Prop :=
+| sf_nil lo : sorted_from lo []
+| sf_cons lo x s : lo <= x -> sorted_from (x + 1) s -> sorted_from lo (x :: s).
+
+Lemma sorted_from_weaken lo lo' s : lo' <= lo -> sorted_from lo s -> sorted_from lo' s.
+Proof. intros H S. destruct S; constructor; auto; lia. Qed.
+
+Lemma set_add_sorted : forall s lo x, sorted_from lo s -> lo <= x -> sorted_from lo (set_add x s).
+Proof.
+  induction s as [|y s IH]; intros lo x S Hx; cbn [set_add].
+  - constructor; auto. constructor.
+  - inversion S as [|? ? ? Hy S']; subst.
+    destruct (x <? y) eqn:E1; [constructor; auto; constructor; try lia; exact S'|].
+    destruct (x =? y) eqn:E2; [exact S|].
+    constructor; auto. apply IH; [exact S'|lia].
+Qed.
+
+Lemma set_add_in : forall s x y, In y (set_add x s) <-> y = x \/ In y s.
+Proof.
+  induction s as [|z s IH]; intros x y; cbn [set_add].
+  - cbn. intuition congruence.
+  - destruct (x <? z) eqn:E1; [cbn; intuition congruence|].
+    destruct (x =? z) eqn:E2.
+    + assert (x = z) by lia. subst. cbn. intuition congruence.
+    + cbn [In]. rewrite IH. intuition congruence.
+Qed.
+
+Lemma set_mem_in : forall s x, set_mem x s = true <-> In x s.
+Proof.
+  induction s as [|y s IH]; intros x; cbn [set_mem In]; [split; [discriminate|tauto]|].
+  rewrite orb_true_iff, IH. split; [intros [H|H]; [left; lia | right; exact H] | intros [H|H]; [left; lia | right; exact H]].
+Qed.
+
+Definition single (id : Z) : region := {| rid := id; rcount := 1 |}.
+
+Lemma singles_wfl : forall s lo, sorted_from lo s -> wfl lo (map single s).
+Proof.
+  induction s as [|x s IH]; intros lo S; cbn [map]; [constructor|].
+  inversion S; subst. constructor; cbn; try lia. unfold rend; cbn. apply IH. assumption.
+Qed.
+
+Lemma singles_inl s id : inl id (map single s) <-> In id s.
+Proof.
+  induction s as [|x s IH]; cbn [map In].
+  - split; [intros H; destruct (inl_nil _ H) | tauto].
+  - rewrite inl_cons, IH. unfold inr, rend, single. cbn. split; [intros [H|H]; [left; lia | right; exact H] | intros [H|H]; [left; lia | right; exact H]].
+Qed.
+
+Lemma singles_count s : count_pages (map single s) = Z.of_nat (length s).
+Proof. induction s as [|x s IH]; cbn [map length]; [reflexivity|]. rewrite count_pages_cons, IH. cbn [rcount single]. lia. Qed.
+
+(* insertion sort leaves an already sorted list alone *)
+Lemma insert_region_sorted r l lo : wfl lo (r :: l) -> insert_region r l = r :: l.
+Proof.
+  intros W. destruct l as [|x l]; [reflexivity|]. cbn [insert_region].
+  inversion W as [|? ? ? _ Hc Wl]; subst. inversion Wl; subst. unfold rend in *.
+  replace (rid r <? rid x) with true by lia. reflexivity.
+Qed.
+
+Lemma sort_regions_sorted : forall l lo, wfl lo l -> sort_regions l = l.
+Proof.
+  induction l as [|r l IH]; intros lo W; [reflexivity|].
+  inversion W as [|? ? ? _ _ Wl]; subst. unfold sort_regions in *. cbn [fold_right].
+  rewrite (IH _ Wl). eapply insert_region_sorted; eauto.
+Qed.
+
+Theorem ids_regions_spec s lo : sorted_from lo s ->
+  wfl lo (ids_regions s) /\ (forall id, inl id (ids_regions s) <-> In id s) /\
+  count_pages (ids_regions s) = Z.of_nat (length s).
+Proof.
+  intros S. unfold ids_regions, optimize.
+  change (map (fun id => {| rid := id; rcount := 1 |}) s) with (map single s).
+  pose proof (singles_wfl s lo S) as W. rewrite (sort_regions_sorted _ lo W).
+  destruct (merge_adjacent_spec _ lo W) as (W2 & Hset & Hcnt).
+  split; [exact W2|]. split; [intros id; rewrite Hset; apply singles_inl | rewrite Hcnt; apply singles_count].
+Qed.
+
+(* ---------- filter on sorted id sets ---------- *)
+Lemma sorted_from_filter (f : Z -> bool) : forall s lo, sorted_from lo s -> sorted_from lo (filter f s).
+Proof.
+  induction s as [|x s IH]; intros lo S; cbn [filter]; [constructor|].
+  inversion S as [|? ? ? Hx S']; subst.
+  destruct (f x); [constructor; auto|]. apply sorted_from_weaken with (x + 1); [lia|]. apply IH. exact S'.
+Qed.
+
+(* ---------- freelist.AddRegions / RemoveRegion at the free-list level ---------- *)
+Theorem fl_add_regions_spec f l lo : wff lo f -> wfl lo l -> disjoint_l (fregions f) l ->
+  wff lo (fl_add_regions f l) /\
+  (forall id, inl id (fregions (fl_add_regions f l)) <-> inl id (fregions f) \/ inl id l) /\
+  avail (fl_add_regions f l) = avail f + count_pages l.
+Proof.
+  intros [W Hav] Wl Hd. unfold fl_add_regions.
+  destruct (0 <? count_pages l) eqn:E.
+  - destruct (merge_region_lists_spec _ _ lo W Wl Hd) as (W2 & Hset & Hcnt). cbn [fregions avail].
+    split; [split; cbn [fregions avail]; [exact W2 | lia]|]. split; [exact Hset | reflexivity].
+  - assert (l = []).
+    { destruct l as [|r l]; [reflexivity|]. inversion Wl; subst. rewrite count_pages_cons in E.
+      pose proof (count_pages_nonneg _ _ H4). lia. }
+    subst l. split; [split; assumption|]. split; [|rewrite count_pages_nil; lia].
+    intros id. split; [left; assumption | intros [H|H]; [exact H | destruct (inl_nil _ H)]].
+Qed.
+
+Theorem fl_remove_region_spec f reg lo : wff lo f ->
+  wff lo (fl_remove_region f reg) /\
+  (forall id, inl id (fregions (fl_remove_region f reg)) <-> inl id (fregions f) /\ ~ inr id reg).
+Proof.
+  intros [W Hav]. unfold fl_remove_region.
+  destruct (remove_range (fregions f) (rid reg) (rend reg)) as [l t] eqn:E.
+  destruct (remove_range_spec _ lo _ _ _ _ W E) as (W2 & Hset & Hcnt & Ht). cbn [fregions avail].
+  split; [split; cbn [fregions avail]; [exact W2 | lia]|]. exact Hset.
+Qed.
+
+Theorem fl_add_region_spec f reg lo : wff lo f -> lo <= rid reg -> 0 < rcount reg < 2^32 ->
+  (forall id, inr id reg -> ~ inl id (fregions f)) ->
+  wff lo (fl_add_region f reg) /\
+  (forall id, inl id (fregions (fl_add_region f reg)) <-> inr id reg \/ inl id (fregions f)) /\
+  avail (fl_add_region f reg) = avail f + rcount reg.
+Proof.
+  intros [W Hav] Hlo Hc Hd. unfold fl_add_region. cbn [fregions avail].
+  destruct (add_region_spec _ lo reg W Hlo Hc Hd) as (W2 & Hset & Hcnt).
+  split; [split; cbn [fregions avail]; [exact W2 | lia]|]. split; [exact Hset | reflexivity].
 Qed.
